@@ -119,6 +119,9 @@ func (c *Conn) connBinary(nargs int) bool {
 }
 
 func (c *Conn) ExecContext(ctx context.Context, query string, nv []driver.NamedValue) (driver.Result, error) {
+	if len(nv) > 0 && c.s.e.skipFastPath() {
+		return nil, driver.ErrSkip
+	}
 	args, err := namedArgs(nv)
 	if err != nil {
 		return nil, err
@@ -127,6 +130,9 @@ func (c *Conn) ExecContext(ctx context.Context, query string, nv []driver.NamedV
 }
 
 func (c *Conn) QueryContext(ctx context.Context, query string, nv []driver.NamedValue) (driver.Rows, error) {
+	if len(nv) > 0 && c.s.e.skipFastPath() {
+		return nil, driver.ErrSkip
+	}
 	args, err := namedArgs(nv)
 	if err != nil {
 		return nil, err
